@@ -71,7 +71,18 @@ def classify_write(prog, n, fq):
                                 if kind == "field" and key[1] == "this":
                                     return True
                         return False
-                    ok, path = cfg.must_happen_before_exit(callee, writes_field)
+                    # (the source here is a temporary, never the target itself: the edge on which the operator found `this == &source` is not taken)
+                    pn1 = callee.params[0]["name"] if callee.params else "?"
+
+                    def not_self_edge(b, to, lab, callee=callee, pn1=pn1):
+                        c = callee.term(b).get("cond")
+                        if c is None:
+                            return True
+                        t = fmt(c)
+                        if not (("this" in t or ".get()" in t) and ("&%s" % pn1 in t.replace("(", "").replace(" ", "") or "addressof(%s)" % pn1 in t)):
+                            return True
+                        return not ((t.find("!=") >= 0 and lab == "false") or (t.find("==") >= 0 and lab == "true"))
+                    ok, path = cfg.must_happen_before_exit(callee, writes_field, edge_ok=not_self_edge)
                     if not ok:
                         return "other", "assigns an empty temporary through %s, which leaves the target unchanged on path B%s" % (short(callee.qual), "->B".join(map(str, path or [])))
                 return "reset", "assigns a value-initialised temporary"
